@@ -252,50 +252,97 @@ fn c13_twins<A: Subject>(run: &Run, cfg: &Cfg, st: &Start, alphabet: &[Op], dept
   }
 }
 
+const C13_ORIGINS: [Option<crate::props_file::Mode>; 5] = [None, Some(crate::props_file::Mode::MapMut), Some(crate::props_file::Mode::MapCopy), Some(crate::props_file::Mode::Map), Some(crate::props_file::Mode::MapCopyRo)];
+
+/// one file-lifetime case: three values (arena, clone, owned handle or second clone) of an arena that created
+/// the file (`origin` None) or reopened it in a mode, dropped in the rotation `order`
+fn c13_file_case<A: Subject>(fl: Fl, remove: bool, origin: Option<crate::props_file::Mode>, order: usize) -> Vec<String> {
+  use rarena_allocator::Allocator;
+  let cfg = Cfg::new(fl, Backend::File, true, 256);
+  let p = fresh_path("c13f");
+  let mut a: A = build(&cfg, Some(&p)).unwrap();
+  let mut bad = vec![];
+  if let Some(mode) = origin {
+    drop(a);
+    if !p.exists() {
+      bad.push("file disappeared when an unmarked arena was dropped".to_string());
+      std::fs::write(&p, b"").ok();
+    }
+    a = match crate::props_file::open::<A>(&p, crate::props_file::open_opts(&cfg, crate::props_file::CapOpt::Same, false), mode) {
+      Ok(a) => a,
+      Err(e) => {
+        eprintln!("machinery: c13 reopen {:?} failed: {}", mode, e);
+        std::process::exit(2);
+      }
+    };
+  }
+  // marked through a clone, as any arena value may be used for it
+  let b = a.clone();
+  b.remove_on_drop(remove);
+  let writable = origin.map(|m| m.writable()).unwrap_or(true);
+  let o: Box<dyn FnOnce()> = if writable {
+    let o = a.alloc_bytes_owned(16).unwrap();
+    Box::new(move || drop(o))
+  } else {
+    let c = b.clone();
+    Box::new(move || drop(c))
+  };
+  if a.refs() != 3 {
+    bad.push(format!("refs() = {} with original + clone + owned handle (or second clone)", a.refs()));
+  }
+  // three values; drop them in different orders, the file must exist until the last one goes
+  let mut vals: Vec<Box<dyn FnOnce()>> = vec![Box::new(move || drop(a)), Box::new(move || drop(b)), o];
+  vals.rotate_left(order);
+  let total = vals.len();
+  for (i, d) in vals.into_iter().enumerate() {
+    if !p.exists() {
+      bad.push(format!("file disappeared before drop #{}", i));
+    }
+    d();
+    let last = i + 1 == total;
+    if !last && !p.exists() {
+      bad.push(format!("file removed after drop #{} of {} although arena values are alive", i + 1, total));
+    }
+    if last && remove == p.exists() {
+      bad.push(format!("after the last drop the file {} (remove_on_drop = {})", if p.exists() { "still exists" } else { "is gone" }, remove));
+    }
+  }
+  let _ = std::fs::remove_file(&p);
+  bad
+}
+
 /// file-backed: the file exists until the last arena value is dropped and disappears right then when marked
 fn c13_files<A: Subject>(run: &Run) {
-  use rarena_allocator::Allocator;
   for fl in Fl::ALL {
     for remove in [true, false] {
-      for order in 0..3 {
-        let cfg = Cfg::new(fl, Backend::File, true, 256);
-        let p = fresh_path("c13f");
-        let case = json!({"engine": "c13-file", "flavour": A::FLAVOUR, "fl": fl, "remove_on_drop": remove, "order": order});
+      // the arena that creates the file, and arenas that reopen it in each of the four modes
+      for (oi, order) in (0..C13_ORIGINS.len()).flat_map(|o| (0..3).map(move |k| (o, k))) {
+        let origin = C13_ORIGINS[oi];
+        let case = json!({"engine": "c13-file", "flavour": A::FLAVOUR, "fl": fl, "remove_on_drop": remove, "order": order, "origin": oi});
         crate::crashguard::set_case(crate::crashguard::head_of(&case));
-        let a: A = build(&cfg, Some(&p)).unwrap();
-        a.remove_on_drop(remove);
-        let b = a.clone();
-        let o = a.alloc_bytes_owned(16).unwrap();
-        let mut bad = vec![];
-        if a.refs() != 3 {
-          bad.push(format!("refs() = {} with original + clone + owned handle", a.refs()));
-        }
-        // three values; drop them in different orders, the file must exist until the last one goes
-        let mut vals: Vec<Box<dyn FnOnce()>> = vec![Box::new(move || drop(a)), Box::new(move || drop(b)), Box::new(move || drop(o))];
-        vals.rotate_left(order);
-        let total = vals.len();
-        for (i, d) in vals.into_iter().enumerate() {
-          if !p.exists() {
-            bad.push(format!("file disappeared before drop #{}", i));
-          }
-          d();
-          let last = i + 1 == total;
-          if !last && !p.exists() {
-            bad.push(format!("file removed after drop #{} of {} although arena values are alive", i + 1, total));
-          }
-          if last && remove == p.exists() {
-            bad.push(format!("after the last drop the file {} (remove_on_drop = {})", if p.exists() { "still exists" } else { "is gone" }, remove));
-          }
-        }
+        let bad = c13_file_case::<A>(fl, remove, origin, order);
         run.eval(1);
         crate::crashguard::clear_case();
         for m in bad {
-          run.violation(crate::report::Violation { property: "C13".into(), signature: format!("C13:file-lifetime:{}", if remove { "remove-on-drop" } else { "keep" }), message: format!("[{} {:?} order {}] {}", A::FLAVOUR, fl, order, m), replay: case.clone() });
+          run.violation(crate::report::Violation { property: "C13".into(), signature: format!("C13:file-lifetime:{}", if remove { "remove-on-drop" } else { "keep" }), message: format!("[{} {:?} origin {:?} order {}] {}", A::FLAVOUR, fl, origin, order, m), replay: case.clone() });
         }
-        let _ = std::fs::remove_file(&p);
       }
     }
   }
+}
+
+pub fn replay_c13_file(case: &serde_json::Value) -> i32 {
+  let case = if case.get("case").map(|c| c.is_object()).unwrap_or(false) { &case["case"] } else { case };
+  let fl: Fl = serde_json::from_value(case["fl"].clone()).expect("fl");
+  let remove = case["remove_on_drop"].as_bool().unwrap_or(true);
+  let origin = C13_ORIGINS[case["origin"].as_u64().unwrap_or(0) as usize];
+  let order = case["order"].as_u64().unwrap_or(0) as usize;
+  let bad = if case["flavour"].as_str() == Some("unsync") { c13_file_case::<rarena_allocator::unsync::Arena>(fl, remove, origin, order) } else { c13_file_case::<rarena_allocator::sync::Arena>(fl, remove, origin, order) };
+  for m in &bad {
+    println!("VIOLATION property=C13 {}", m);
+  }
+  println!("replay c13-file: {} problem(s)", bad.len());
+  if bad.is_empty() { 0 } else { 1 }
 }
 
 /// called by the C13 check before the multi-threaded exploration
